@@ -79,3 +79,64 @@ Proof.
   cbn [fver fresh]. rewrite check_spec_run.
   rewrite (vt_all_spec _ _ Hinj) by apply spec_run_answers. reflexivity.
 Qed.
+
+(* ---------- validb is sound ---------- *)
+Fixpoint fassoc (v : N) (l : list (N * fstate)) : option fstate :=
+  match l with [] => None | (v', f) :: r => if v =? v' then Some f else fassoc v r end.
+
+Lemma functionalb_assoc l : functionalb l = true -> forall p, In p l -> fassoc (fst p) l = Some (snd p).
+Proof.
+  intros Hf. unfold functionalb in Hf. rewrite forallb_forall in Hf.
+  assert (G : forall l', (forall q, In q l' -> In q l) -> forall p, In p l -> In p l' -> fassoc (fst p) l' = Some (snd p)).
+  { induction l' as [|[v' f'] l' IH]; intros Hsub p Hp Hin; [destruct Hin|]. cbn [fassoc].
+    destruct (N.eqb_spec (fst p) v') as [He|Hne].
+    - specialize (Hf p Hp). rewrite forallb_forall in Hf. specialize (Hf (v', f') (Hsub _ (or_introl eq_refl))).
+      cbn [fst snd] in Hf. rewrite He, N.eqb_refl in Hf. cbn [negb orb] in Hf.
+      destruct (fstate_eq_dec (snd p) f'); [congruence|discriminate].
+    - destruct Hin as [<-|Hin]; [cbn in Hne; congruence|]. apply IH; auto. intros q Hq. apply Hsub. now right. }
+  intros p Hp. apply (G l); auto.
+Qed.
+
+Lemma pairs_consistent content_of : forall h fs,
+  (forall p, In p (pairs_of fs h) -> content_of (fst p) = snd p) -> cons_h content_of fs h.
+Proof.
+  induction h as [|s h IH]; intros fs Hp; [exact Logic.I|].
+  destruct s as [v f|cl|cl [e|tok]]; cbn [cons_h pairs_of] in *.
+  - split; [symmetry; apply (Hp (v, f)); now left|]. apply IH. intros p Hin. apply Hp. now right.
+  - apply IH, Hp.
+  - apply IH, Hp.
+  - split; [symmetry; apply (Hp (tok, snd fs)); now left|]. apply IH. intros p Hin. apply Hp. now right.
+Qed.
+
+Lemma assoc_in {V} k (t : list (str * V)) v : assoc str_eqb k t = Some v -> In (k, v) t.
+Proof.
+  induction t as [|[k' v'] t IH]; [discriminate|]. cbn [assoc].
+  destruct (str_eqb k k') eqn:E; [|intros H; right; now apply IH].
+  intros H. inversion H; subst. apply str_eqb_true in E. subst. now left.
+Qed.
+
+Lemma hash_table_ok_inj (tb : tables) : hash_table_okb (t_hash tb) = true ->
+  forall a b, o_hash (oracle_of tb) a = o_hash (oracle_of tb) b -> a = b.
+Proof.
+  intros H a b. apply andb_true_iff in H. destruct H as [H0 Hd]. rewrite forallb_forall in H0, Hd.
+  cbn [oracle_of o_hash].
+  destruct (assoc str_eqb a (t_hash tb)) as [ha|] eqn:Ea; destruct (assoc str_eqb b (t_hash tb)) as [hb|] eqn:Eb.
+  - intros <-. apply assoc_in in Ea, Eb. specialize (Hd _ Ea). rewrite forallb_forall in Hd. specialize (Hd _ Eb).
+    cbn [fst snd] in Hd. apply orb_true_iff in Hd. destruct Hd as [Hd|Hd]; [now apply str_eqb_true|].
+    unfold str_eqb in Hd. destruct (list_eq_dec N.eq_dec ha ha); [discriminate|congruence].
+  - intros ->. apply assoc_in in Ea. specialize (H0 _ Ea). cbn in H0. discriminate.
+  - intros <-. apply assoc_in in Eb. specialize (H0 _ Eb). cbn in H0. discriminate.
+  - intros H. now inversion H.
+Qed.
+
+Lemma validb_valid (cs : case) : validb cs = true -> valid cs.
+Proof.
+  unfold validb, valid. intros H. apply andb_true_iff in H. destruct H as [Hf Hh].
+  split; [|now apply hash_table_ok_inj].
+  set (l := init cs :: pairs_of (init cs) (hist cs)) in *.
+  exists (fun v => match fassoc v l with Some f => f | None => FMissing end).
+  pose proof (functionalb_assoc l Hf) as Ha.
+  split.
+  - rewrite (Ha (init cs)); [reflexivity|now left].
+  - apply pairs_consistent. intros p Hp. rewrite (Ha p); [reflexivity|now right].
+Qed.
